@@ -38,6 +38,89 @@ func checkC06(r *core.Run) {
 		})
 	}
 	r.Check(okStrict, "R-C06-tie", "strict-comparison", "-", "more work means strictly greater", "the work comparison is not a strict 'greater than': an equal-work branch would replace the first-seen tip")
+	// each side's work is the sum of the difficulties of that side's own blocks (three loops, twin lines)
+	if mp != nil {
+		var walkerSide func(v ssa.Value, seen map[ssa.Value]bool) map[int]bool
+		walkerSide = func(v ssa.Value, seen map[ssa.Value]bool) map[int]bool {
+			out := map[int]bool{}
+			if seen[v] {
+				return out
+			}
+			seen[v] = true
+			switch x := v.(type) {
+			case *ssa.Parameter:
+				for i, pr := range mp.Params {
+					if pr == x {
+						out[i] = true
+					}
+				}
+			case *ssa.Phi:
+				for _, e := range x.Edges {
+					for k := range walkerSide(e, seen) {
+						out[k] = true
+					}
+				}
+			case *ssa.UnOp:
+				if fa, ok := x.X.(*ssa.FieldAddr); ok {
+					for k := range walkerSide(fa.X, seen) {
+						out[k] = true
+					}
+				}
+			}
+			return out
+		}
+		// accumulator sides from the final comparison
+		accSide := map[ssa.Value]int{}
+		var mark func(v ssa.Value, side int)
+		mark = func(v ssa.Value, side int) {
+			if _, done := accSide[v]; done {
+				return
+			}
+			switch x := v.(type) {
+			case *ssa.Phi:
+				accSide[v] = side
+				for _, e := range x.Edges {
+					mark(e, side)
+				}
+			case *ssa.BinOp:
+				if x.Op == token.ADD {
+					accSide[v] = side
+					mark(x.X, side)
+				}
+			}
+		}
+		an.Instrs(mp, func(i ssa.Instruction) {
+			if ret, ok := i.(*ssa.Return); ok && len(ret.Results) == 1 {
+				if bo, ok := ret.Results[0].(*ssa.BinOp); ok && bo.Op == token.GTR {
+					mark(bo.X, 0)
+					mark(bo.Y, 1)
+				}
+			}
+		})
+		nAdd, bad := 0, ""
+		for v, side := range accSide {
+			bo, ok := v.(*ssa.BinOp)
+			if !ok {
+				continue
+			}
+			c, ok := bo.Y.(*ssa.Call)
+			if !ok || an.CallName(c) != "lib/btc.GetDifficulty" {
+				bad = "a term other than a block difficulty is added at " + p.Pos(bo.Pos())
+				continue
+			}
+			bc, ok := c.Call.Args[0].(*ssa.Call)
+			if !ok || !strings.HasSuffix(an.CallName(bc), ".Bits") {
+				bad = "the difficulty added at " + p.Pos(bo.Pos()) + " is not computed from a block's bits"
+				continue
+			}
+			nAdd++
+			ws := walkerSide(bc.Call.Args[0], map[ssa.Value]bool{})
+			if len(ws) != 1 || !ws[side] {
+				bad = fmt.Sprintf("the work of side %d gets the difficulty of a block of the other side's walk at %s", side+1, p.Pos(bo.Pos()))
+			}
+		}
+		r.Check(nAdd == 4 && bad == "", "R-C06-tie", "work-sums-own-branch", p.Pos(mp.Pos()), "each side's sum adds the difficulty of that side's own blocks (4 additions)", fmt.Sprintf("%d additions; %s", nAdd, bad))
+	}
 	cb := p.Func("lib/chain.(*Chain).CommitBlock")
 	okCond := false
 	if cb != nil {
